@@ -256,6 +256,9 @@ def run_trace_shard(ctx, st, shard, nshards, record_args, race=False):
     text = q.stdout
     info = parse_tlc(text)
     res = dict(shard=shard, events=nev, dir=d, info=info, wall=time.time() - t, rc=q.returncode, record_cmd=rcmd[1:])
+    res["known"] = {}
+    for m in re.findall(r'^"KNOWN-SIG (\S+)"$', text, re.M):
+        res["known"][m] = res["known"].get(m, 0) + 1
     if q.returncode == 124:
         raise Machinery("stage %s: TLC timed out validating shard %d" % (st["name"], shard))
     if q.returncode == 0 and info["ok"] and info["depth"] - 1 == nev:
@@ -291,6 +294,8 @@ def stage_trace(ctx, st):
                                        replay=dict(kind="trace", family=st["family"], stage=st["name"], record_cmd=r["record_cmd"], race=race)))
             continue
         events += r["events"]
+        for k2, v2 in r.get("known", {}).items():
+            ctx.known[k2] = ctx.known.get(k2, 0) + v2
         lines = open(os.path.join(r["dir"], "trace.ndjson")).read().splitlines()
         resets = [i for i, x in enumerate(lines) if '"op":"Reset"' in x]
         traces += max(1, len(resets))
